@@ -404,6 +404,40 @@ STRINGS = [
     "'{{'", '"%}"', "'#}'", '"\\\\"', "'a\\tb'", '"layout.html"', "'%s-%s'", '"%(a)s"', '"<b>"', "'\\q'", '"x\\\ny"',
     '"}"', "'${'", '"-->"', "'\\x'", '"\\N{nope}"', "'\\u12'", '"\\U99999999"', "'\\'", "'a\\",
 ]
+# names under which a share of the sources is loaded through a loader (the name is embedded in the
+# generated code: module header, block functions, error positions, "does not export" messages)
+TEMPLATE_NAME_POOL = [
+    "t.html",
+    "a\"b",
+    "a'b",
+    "a\"'b",
+    "a\\b",
+    "{x}",
+    "{",
+    "%s",
+    "a\nb",
+    "\U0001f600",
+    "\"",
+    "\\",
+    "}}",
+    "{{x}}",
+    "%(n)s",
+    "a\rb",
+    "'''",
+    "\"\"\"",
+    "a\\",
+    "\\\"",
+    "${x}",
+    "#",
+    "{0}",
+    "a b/c.txt",
+    "\u00e9.html",
+    "\\N{x}",
+    "\\x",
+    "{x!r}",
+    "{%",
+    "#}",
+]
 TEMPLATE_NAMES = ['"a"', "'b.html'", '"layout"', "name", "[\"a\", 'b']", '("a", "b")', "x.y", '"a" ~ x']
 NUMBERS = ["0", "1", "2", "3", "7", "10", "42", "99", "1.5", "0.0", "2.5e1", "1e1", "0x1f", "0o7", "0b11", "1_0", "00", "1E1", "9_8.0_1"]
 SMALL_NUMBERS = ["0", "1", "2", "3", "7", "1.5", "0x7", "0b11", "0o7", "00"]
